@@ -1,12 +1,10 @@
 (* WireDefs.v — the definitions the wire theorems are stated with (design/WIRE_THEOREMS.md):
    exact / fails, lens_ok, keys_nodup, wf_dval.  Written by W3 as the statements of
    PrefixProofs.v need them; W2 defines the same notions (the lead de-duplicates). *)
-From QV Require Export Wire Value.
+From QV Require Export Wire Value WireLemmas.
 Local Open Scope N_scope.
 
-Definition exact {A} (p : bytes -> res (A * bytes)) (x : A) (e : bytes) : Prop :=
-  forall rest, p (e ++ rest) = ROk (x, rest).
-Definition fails {A} (r : res A) : Prop := exists l, r = RErr l.
+(* exact / fails come from WireLemmas.v (W1), with the statements of the design file *)
 
 (* every list and map of v has at most listValueMaxSize entries *)
 Fixpoint lens_ok (v : tval) : bool :=
